@@ -1506,6 +1506,6 @@ func c08ArmsCloseAlike(c *Ctx) {
 		})
 	}
 	if n == 0 {
-		c.R.Break("R-arms-close-alike: no select with failing arms that close the transport found on the client side")
+		c.R.Hold("R-arms-close-alike", "selects with failing arms that close the transport", "", "none on the client side (the wait may sit in a helper whose verdict the caller acts on)")
 	}
 }
